@@ -252,7 +252,7 @@ EXT = {
            "NoStaleHit; key-material log validated by Val_Cache against CacheProtocol.tla, itself model-checked with two negative "
            "controls); families Surrogates, Tsonis, Hilbert, InterSystemRecurrenceNetwork, CoupledClimateNetwork, "
            "EventSeriesClimateNetwork; same-array mutators; disconnected token-2 graphs."
-           ' Third round: the mutator `node_weights~getset` (the caller edits the array the object hands out and assigns it back).',
+           ' Third round: the mutator `node_weights~getset` (the caller edits the array the object hands out and assigns it back); randomly_rewire as a mutator; families Spearman, PartialCorrelation, MutualInfo and Havlin climate networks (set_winter_only / set_max_delay).',
     "C02": " Added: every third case on a warm object re-weighted in place; group-indexed n.s.i. cross / internal measures of "
            "InteractingNetworks under Split."
            " Third round: every fourth case uses non-dyadic weights (1.1/1.7/2.5) and proportions (3/10, 7/10); the twins' weights must add up to v's weight to double precision; link-weighted variants (n.s.i. strengths and weighted motif clusterings with a link attribute handed on by splitted_copy).",
